@@ -667,6 +667,68 @@ pub fn bucket_dir_history(ps: u64, n: usize, d: usize, w: usize, extra_deletes: 
     History { pagesize: ps, num_pages: 8, strict: false, populate: false, txs: vec![tx0, tx1, tx2], origin: format!("bucket directory: {} nested buckets, delete #{} (+{}), write into #{}", n, d, extra_deletes, w), pins: vec![] }
 }
 
+/// Directed family: a *wide* bucket (`n` >= 65 sub-buckets, each with a bucket `inner` of its own) in which one
+/// transaction writes two levels down (`top/sNNN/inner`), lets go of every handle on the way, then opens ALL
+/// the sub-buckets (a listing; point lookups of each), and then comes back to what it wrote - by walking
+/// down from `top` again, and by committing.  Whatever an implementation does with the buckets a transaction
+/// has opened (a cache with a size limit, an eviction rule), a write must not get lost with its handles
+/// (seeded change C07-o capped the per-bucket cache of opened sub-buckets at 64 entries and evicted the
+/// "unreferenced and not directly modified" ones - the middle bucket of such a write is exactly that).
+pub fn wide_dir_history(ps: u64, n: usize, target: usize, variant: usize) -> History {
+    let name = |j: usize| K::lit(format!("s{:03}", j).as_bytes());
+    let put = |h: H, k: &[u8], tag: u64, len: usize| Op::Put { h, k: K::lit(k), v: V { tag, len }, how: How::Slice, vhow: How::Slice };
+    let mut ops = vec![Op::TxCreate { k: K::lit(b"top"), how: How::Slice }];
+    let mut nh = 1;
+    for j in 0..n {
+        ops.push(Op::Create { h: 0, k: name(j), how: How::Slice });
+        let hj = nh;
+        nh += 1;
+        ops.push(Op::Create { h: hj, k: K::lit(b"inner"), how: How::Slice });
+        ops.push(put(nh, b"k", 3000 + j as u64, 20));
+        nh += 1;
+    }
+    let tx0 = TxScript { ops, end: End::Commit, reopen: variant % 2 == 0 };
+    // the transaction under test
+    let mut ops = vec![Op::TxGet { k: K::lit(b"top"), how: How::Slice }]; // h0
+    ops.push(Op::GetB { h: 0, k: name(target), how: How::Slice }); // h1 = top/sT
+    ops.push(Op::GetB { h: 1, k: K::lit(b"inner"), how: How::Slice }); // h2 = top/sT/inner
+    ops.push(put(2, b"deep", 9000 + target as u64, 40 + variant * 300));
+    if variant % 3 == 1 {
+        ops.push(Op::Create { h: 2, k: K::lit(b"deeper"), how: How::Slice }); // h3
+        ops.push(put(3, b"deepest", 9500, 15));
+        ops.push(Op::DropH { h: 3 });
+    }
+    ops.push(Op::DropH { h: 2 });
+    ops.push(Op::DropH { h: 1 });
+    let mut nh = if variant % 3 == 1 { 4 } else { 3 };
+    // open every sub-bucket of `top`
+    match variant % 3 {
+        0 => ops.push(Op::Buckets { h: 0 }),
+        1 => {
+            for j in 0..n {
+                if j != target {
+                    ops.push(Op::GetB { h: 0, k: name(j), how: How::Slice });
+                    ops.push(Op::DropH { h: nh });
+                    nh += 1;
+                }
+            }
+        }
+        _ => {
+            ops.push(Op::Buckets { h: 0 });
+            ops.push(Op::Scan { h: 0 });
+            ops.push(Op::Buckets { h: 0 });
+        }
+    }
+    // come back to it from the top
+    ops.push(Op::GetB { h: 0, k: name(target), how: How::Slice });
+    ops.push(Op::GetB { h: nh, k: K::lit(b"inner"), how: How::Slice });
+    ops.push(Op::Get { h: nh + 1, k: K::lit(b"deep") });
+    ops.push(Op::Scan { h: nh + 1 });
+    let tx1 = TxScript { ops, end: End::Commit, reopen: variant % 2 == 1 };
+    let tx2 = TxScript { ops: vec![Op::TxGet { k: K::lit(b"top"), how: How::Slice }, Op::GetB { h: 0, k: name(target), how: How::Slice }, Op::GetB { h: 1, k: K::lit(b"inner"), how: How::Slice }, Op::Scan { h: 2 }], end: End::Commit, reopen: false };
+    History { pagesize: ps, num_pages: 8, strict: false, populate: false, txs: vec![tx0, tx1, tx2], origin: format!("wide directory: {} sub-buckets, write two levels below #{} (variant {}), every handle dropped, all sub-buckets opened", n, target, variant), pins: vec![] }
+}
+
 /// Directed family: the ROOT of the database (the directory of top-level buckets) as a multi-page tree.
 /// `n` top-level buckets with 10-byte names (17 fill a 1 KiB leaf) are created, the file is closed and
 /// reopened, then one transaction deletes the top-level buckets number `a..b` and nothing else (all
